@@ -180,6 +180,18 @@ func c08(c *Sexp) *Sexp {
 		}
 		after.List = append(after.List, KV("t2after", l), KV("audit", Strs(problems)))
 	}
+	// (rep k): the single compared tree is sent k times (k separately built copies)
+	if c.Get("rep") != nil && len(t2s) == 1 {
+		k := c.Int("rep")
+		src := c.Get("t2s").List[0]
+		for i := 1; i < k; i++ {
+			t, err := BuildTree(src)
+			if err != nil {
+				return L(KV("panic", A("build copy: "+err.Error())))
+			}
+			t2s = append(t2s, t)
+		}
+	}
 	if op == "common" {
 		t2, err := BuildTree(c.Get("t2"))
 		if err != nil {
